@@ -29,6 +29,7 @@ func runC04(c *core.Ctx) {
 	c.RuleDoc("R04.2", "no transformed possibly-invalid name handed to a file system / returned by Mount")
 	c.RuleDoc("R04.3", "invalid name => ErrInvalid-class error on every reachable return")
 	c.RuleDoc("R04.4", "ErrInvalid only under allowed guard kinds")
+	c.RuleDoc("R04.7", "hackpadfs.ValidPath answers exactly what io/fs.ValidPath answers")
 	c.RuleDoc("R04.6", "no valid name is refused because it merely starts with another name (element-boundary prefix tests)")
 	c.RuleDoc("R04.5", "separator discipline")
 	for _, p := range c.Progs {
@@ -43,6 +44,7 @@ func runC04(c *core.Ctx) {
 		r04Separators(c, p)
 		// R04.6 (converse): a name relation that refuses names is tested on element boundaries: "log.1" is not below "log"
 		boundaryTests(c, p, "R04.6", "keyvalue", "mount", "")
+		r04PredicateIsTheStandardOne(c, p)
 	}
 	c.Floor("R04.1", 60)
 	c.Floor("R04.2", 2)
@@ -50,6 +52,7 @@ func runC04(c *core.Ctx) {
 	c.Floor("R04.4", 8)
 	c.Floor("R04.5", 2)
 	c.Floor("R04.6", 2)
+	c.Floor("R04.7", 1)
 }
 
 func staticCallerCount(p *load.Program) map[*ssa.Function]int {
@@ -1086,4 +1089,28 @@ func (va *validAnalysis) isLookup(callee *ssa.Function) bool {
 		return true
 	}
 	return false
+}
+
+// r04PredicateIsTheStandardOne (R04.7): every gate of the module asks hackpadfs.ValidPath; the class of names that is
+// refused is io/fs.ValidPath's, no narrower and no wider: every return of hackpadfs.ValidPath is the result of
+// io/fs.ValidPath applied to its parameter. An extra refusal ("also NUL and broken UTF-8, in one pass" — which refuses a
+// correctly encoded U+FFFD as well) makes valid names fail with ErrInvalid in every file system at once.
+func r04PredicateIsTheStandardOne(c *core.Ctx, p *load.Program) {
+	fn := p.Func("", "ValidPath")
+	if fn == nil || len(fn.Params) != 1 {
+		c.Hard("anchor: hackpadfs.ValidPath")
+		return
+	}
+	bad := ""
+	n := 0
+	for _, r := range ssax.Returns(fn) {
+		n++
+		v := resolveSpilled(r.Results[0], r)
+		cl, ok := v.(*ssa.Call)
+		if !ok || !ssax.CalleeIs(cl, "io/fs", "ValidPath") || len(cl.Call.Args) != 1 || cl.Call.Args[0] != ssa.Value(fn.Params[0]) {
+			bad = p.Pos(r.Pos())
+		}
+	}
+	c.Check(bad == "" && n > 0, "R04.7", "hackpadfs.ValidPath|is-io/fs.ValidPath", p.Pos(fn.Pos()), "every return is io/fs.ValidPath(path)",
+		fmt.Sprintf("hackpadfs.ValidPath returns at %s something other than io/fs.ValidPath of its argument: the predicate behind every gate of the module is narrower or wider than the io/fs one — names io/fs calls valid (a correctly encoded U+FFFD, say) fail with ErrInvalid in every file system, or invalid ones pass", bad))
 }
